@@ -30,6 +30,7 @@ def campaigns(tier):
     if tier == "thorough":
         return [("corpus", ["corpus", CORPUS], None),
                 ("editor-capi", ["editor"], None),
+                ("two-dictionaries-one-directory", ["pair", "200"], None),
                 ("exhaustive-5-crash", ["explore", "5", "udfr", "1"], ["5", "udfr"]),
                 ("exhaustive-6", ["explore", "6", "udfr", "0"], ["6", "udfr"]),
                 ("exhaustive-6-crash-ufr", ["explore", "6", "ufr", "1"], ["6", "ufr"]),
@@ -37,6 +38,7 @@ def campaigns(tier):
                 ("random", ["random", "3000", "14"], None)]
     return [("corpus", ["corpus", CORPUS], None),
             ("editor-capi", ["editor"], None),
+            ("two-dictionaries-one-directory", ["pair", "40"], None),
             ("exhaustive-4-crash", ["explore", "4", "udfr", "1"], ["4", "udfr"]),
             ("exhaustive-5", ["explore", "5", "udfr", "0"], ["5", "udfr"]),
             ("exhaustive-5-add-remove", ["explore", "5", "befr", "0"], ["5", "befr"]),
